@@ -19,6 +19,7 @@ pub fn dispatch(op: &str, f: &Fields) -> String {
         "hist" => hist(f),
         "structcmp" => structcmp(f),
         "crash" => crash(f),
+        "ctor" => ctor(f),
         _ => format!("harness-error unknown-op {}", op),
     }
 }
@@ -982,4 +983,87 @@ pub fn crash(f: &Fields) -> String {
 
 fn wr_inner_keep(f: &Fields) -> (Result<(), String>, Shared, Option<Vec<u8>>) {
     wr_inner(f)
+}
+
+/// C15: constructor argument validation and the declared-length contract.
+/// `fill=<n>` PCM frames are written in `calls=<k>` calls, then finalize.
+pub fn ctor(f: &Fields) -> String {
+    let opts = match options(f) {
+        Ok(o) => o,
+        Err(e) => return format!("err {} stage=options", e),
+    };
+    let rate = num::<u32>(f, "rate", 44100);
+    let ch = num::<u8>(f, "ch", 1);
+    let bps = num::<u32>(f, "bps", 16);
+    let total = opt_num::<u64>(f, "total");
+    let fill = num::<usize>(f, "fill", 0);
+    let calls = num::<usize>(f, "calls", 1).max(1);
+    let chn = ch as usize;
+    let lo: i64 = if (1..=32).contains(&bps) { -(1i64 << (bps - 1)) } else { -1 };
+    let hi: i64 = if (1..=32).contains(&bps) { (1i64 << (bps - 1)) - 1 } else { 0 };
+    let pcm: Vec<i32> = (0..fill * chn).map(|i| ((i as i64 * 7 + 3) % (hi - lo + 1) + lo) as i32).collect();
+    let io = Shared::new(0);
+    let per = if chn == 0 { 0 } else { fill.div_ceil(calls) * chn };
+    let res: Result<(), String> = match get(f, "fe") {
+        "byte" => (|| {
+            let mut w = FlacByteWriter::endian(io.clone(), LittleEndian, opts, rate, bps, ch, total).map_err(|e| format!("{} stage=new", errclass(&e)))?;
+            let bytes_per = (bps.div_ceil(8)) as usize;
+            let mut raw = Vec::new();
+            for s in &pcm {
+                raw.extend_from_slice(&s.to_le_bytes()[..bytes_per.min(4)]);
+            }
+            let perb = (per * bytes_per).max(1);
+            for c in raw.chunks(perb) {
+                w.write_all(c).map_err(|e| format!("{} stage=write", ioclass(&e)))?;
+            }
+            w.finalize().map_err(|e| format!("{} stage=finalize", errclass(&e)))
+        })(),
+        "sample" => (|| {
+            let mut w = FlacSampleWriter::new(io.clone(), opts, rate, bps, ch, total).map_err(|e| format!("{} stage=new", errclass(&e)))?;
+            for c in pcm.chunks(per.max(1)) {
+                w.write(c).map_err(|e| format!("{} stage=write", errclass(&e)))?;
+            }
+            w.finalize().map_err(|e| format!("{} stage=finalize", errclass(&e)))
+        })(),
+        "chan" => (|| {
+            let mut w = FlacChannelWriter::new(io.clone(), opts, rate, bps, ch, total).map_err(|e| format!("{} stage=new", errclass(&e)))?;
+            let planar: Vec<Vec<i32>> = (0..chn).map(|c| (0..fill).map(|i| pcm[i * chn + c]).collect()).collect();
+            let perf = fill.div_ceil(calls).max(1);
+            let mut pos = 0;
+            while pos < fill {
+                let end = (pos + perf).min(fill);
+                let part: Vec<&[i32]> = planar.iter().map(|p| &p[pos..end]).collect();
+                w.write(&part).map_err(|e| format!("{} stage=write", errclass(&e)))?;
+                pos = end;
+            }
+            w.finalize().map_err(|e| format!("{} stage=finalize", errclass(&e)))
+        })(),
+        "stream" => (|| {
+            let mut out: Vec<u8> = Vec::new();
+            let mut w = FlacStreamWriter::new(&mut out, opts);
+            w.write(rate, ch, bps, &pcm).map_err(|e| format!("{} stage=write", errclass(&e)))
+        })(),
+        other => Err(format!("harness-error bad-fe {}", other)),
+    };
+    match res {
+        Err(e) => format!("err {}", e),
+        Ok(()) => {
+            let file = io.data();
+            let mut s = "ok stage=done".to_string();
+            if get(f, "fe") != "stream" {
+                match FlacSampleReader::new(Cursor::new(file)) {
+                    Ok(mut r) => {
+                        s.push_str(&format!(" {}", meta_str(&r)));
+                        let mut all = Vec::new();
+                        match r.read_to_end(&mut all) {
+                            Ok(_) => s.push_str(&format!(" roundtrip={}", all == pcm)),
+                            Err(e) => s.push_str(&format!(" roundtrip=ERR:{}", errclass(&e))),
+                        }
+                    }
+                    Err(e) => s.push_str(&format!(" reopen=ERR:{}", errclass(&e))),
+                }
+            }
+            s
+        }
+    }
 }
